@@ -1,6 +1,7 @@
 import Driver.Common
 import CoapVerif.Model.Reader
 import CoapVerif.Model.ReaderPrograms
+import CoapVerif.Model.ReaderNStart
 import CoapVerif.Spec.Dispatch
 /-!
 Driver for C11.
@@ -12,7 +13,7 @@ and prints the observation line of the harness.
 signatures for known findings): `limiter`, `observe`, `ping`, or `-`.
 -/
 namespace Driver.C11
-open CoapVerif CoapVerif.Model.Reader CoapVerif.Model.ReaderPrograms
+open CoapVerif CoapVerif.Model.Reader CoapVerif.Model.ReaderPrograms CoapVerif.Model.ReaderNStart
 
 structure Sim where
   s : State
@@ -33,18 +34,22 @@ def normF (f : List String) : List String :=
   | ["notem", k, _, _] => ["note", k]     -- a notification, whatever its type and message ID
   | _ => f
 
-def compileProg (udp : Bool) (limit epLimit : Nat) (prog : String) : List Act :=
+/-- transport field: `udp` (NSTART 1000 in the harness: not limiting, 0 here), `udp@<n>` (NSTART n), `tcp`, `tcp@<cache>` -/
+def isUdp (tr : String) : Bool := tr == "udp" || tr.startsWith "udp@"
+def nstartOf (tr : String) : Nat := if tr.startsWith "udp@" then (tr.drop 4).toString.toNat?.getD 0 else 0
+
+def compileProg (udp : Bool) (limit epLimit nstart : Nat) (prog : String) : List Act :=
   (prog.splitOn "+").foldl (fun acc st =>
     if st == "r" || st == "" || st == "a" then acc
     else if st == "p" then acc ++ pingProg udp
     else
       let k := (st.drop 1).toString.toNat?.getD 0
-      if st.startsWith "w" then acc ++ writeProg udp k
+      if st.startsWith "w" then acc ++ writeProgN udp nstart k
       else if st.startsWith "s" then acc ++ sleepProg k
-      else if st.startsWith "n" then acc ++ doNonProg udp 1 epLimit limit k
-      else if st.startsWith "g" then acc ++ doProg udp 1 epLimit limit k
-      else if st.startsWith "h" then acc ++ doProg udp (100 + k) epLimit limit k
-      else if st.startsWith "o" then acc ++ observeProg udp 1 epLimit limit k
+      else if st.startsWith "n" then acc ++ doNonProgN udp 1 epLimit limit nstart k
+      else if st.startsWith "g" then acc ++ doProgN udp 1 epLimit limit nstart k
+      else if st.startsWith "h" then acc ++ doProgN udp (100 + k) epLimit limit nstart k
+      else if st.startsWith "o" then acc ++ observeProgN udp 1 epLimit limit nstart k
       else acc) []
 
 /-- what the current loop is blocked in, if it is -/
@@ -53,7 +58,8 @@ def stuckCause (s : State) : Option String :=
   | some lp =>
     if lp.pc == .running then
       match lp.prog with
-      | .acquire _ _ :: _ => some "limiter"
+      -- the NSTART semaphore (`udp@<n>`) is a blocking construct of its own, not the parallel-request limiter
+      | .acquire key _ :: _ => if key == nstartKey then some "nstart" else some "limiter"
       -- the 20 s deadline is DoObserve's (NewObservation's select); a `Do` waits in doInternal's select, which has a
       -- replacement request before it in today's source
       | .wait (.delivered k) _ :: _ =>
@@ -189,22 +195,22 @@ def addOutside (s : State) (prog : List Act) : State :=
   let lp : Loop := { idleLoop with doneClosed := true, reading := true, pc := .running, prog := prog }
   { setLoop s s.nloops lp with nloops := s.nloops + 1 }
 
-def applyOp (udp : Bool) (limit epLimit : Nat) (sim : Sim) (f : List String) : Option (Sim × List String) :=
+def applyOp (udp : Bool) (limit epLimit nstart : Nat) (sim : Sim) (f : List String) : Option (Sim × List String) :=
   let s := sim.s
   let wire (k : MKind) : Sim := { sim with s := { s with inbox := s.inbox ++ [⟨sim.nextId, k⟩] }, nextId := sim.nextId + 1 }
   match f with
   | ["arrive", m, prog] => do
     let m ← m.toNat?
     let obs := (prog.splitOn "+").filterMap (fun st => if st.startsWith "o" then (st.drop 1).toString.toNat? else none)
-    some ({ sim with s := { s with inbox := s.inbox ++ [⟨m, .req (compileProg udp limit epLimit prog)⟩] },
+    some ({ sim with s := { s with inbox := s.inbox ++ [⟨m, .req (compileProg udp limit epLimit nstart prog)⟩] },
                      obsExch := obs ++ sim.obsExch }, [])
   | ["mon", m, prog] => do
     -- a message the request monitor drops, and request m right behind it: the dropped one is never queued
     let m ← m.toNat?
-    some ({ sim with s := { s with inbox := s.inbox ++ [⟨m, .req (compileProg udp limit epLimit prog)⟩] } }, [])
+    some ({ sim with s := { s with inbox := s.inbox ++ [⟨m, .req (compileProg udp limit epLimit nstart prog)⟩] } }, [])
   | ["arrivem", m, prog, _, _] => do
     let m ← m.toNat?
-    some ({ sim with s := { s with inbox := s.inbox ++ [⟨m, .req (compileProg udp limit epLimit prog)⟩] } }, [])
+    some ({ sim with s := { s with inbox := s.inbox ++ [⟨m, .req (compileProg udp limit epLimit nstart prog)⟩] } }, [])
   | ["dup", m] => do
     -- a retransmission of request m: accepted, taken by a loop, answered from the reply cache (after waiting for the original's
     -- handler, if that is still running) — the handler does not run again, nothing is logged
@@ -220,16 +226,16 @@ def applyOp (udp : Bool) (limit epLimit : Nat) (sim : Sim) (f : List String) : O
   | ["burst", ids] =>
     let ms := (ids.splitOn "-").filterMap (·.toNat?)
     some ({ sim with s := { s with inbox := s.inbox ++ ms.map (fun m => ⟨m, .req []⟩) } }, [])
-  | ["call", prog] => some ({ sim with s := addOutside s (compileProg udp limit epLimit prog) }, [])
+  | ["call", prog] => some ({ sim with s := addOutside s (compileProg udp limit epLimit nstart prog) }, [])
   | ["watch", k, prog] => do
     let k ← k.toNat?
-    some ({ sim with s := addOutside s (observeProg udp 1 epLimit limit k), obsExch := k :: sim.obsExch,
+    some ({ sim with s := addOutside s (observeProgN udp 1 epLimit limit nstart k), obsExch := k :: sim.obsExch,
                      watchProg := (k, prog) :: sim.watchProg }, [])
   | ["note", k] => do
     -- a notification is dispatched to the observation's callback like a request to the handler
     let k ← k.toNat?
     let j := (sim.notes.filter (· == k)).length + 1
-    let prog := if j == 1 then compileProg udp limit epLimit ((sim.watchProg.lookup k).getD "r") else []
+    let prog := if j == 1 then compileProg udp limit epLimit nstart ((sim.watchProg.lookup k).getD "r") else []
     some ({ sim with s := { s with inbox := s.inbox ++ [⟨9000 + 100 * k + j, .req prog⟩] }, notes := k :: sim.notes }, [])
   | ["pad", _] => some (sim, [])
   | ["yield"] => some (settle sim, [])
@@ -260,7 +266,8 @@ def model (line : String) : String :=
   match words line with
   | ["disc", _] => "disc"      -- real sockets, real time: judged, not compared
   | "scn" :: tr :: q :: lim :: ep :: ops =>
-    let udp := tr == "udp"
+    let udp := isUdp tr
+    let nstart := nstartOf tr
     let limit := lim.toNat?.getD 0
     let epLimit := ep.toNat?.getD 0
     let sim0 : Sim := { s := init (q.toNat?.getD 0) udp [] }
@@ -275,7 +282,7 @@ def model (line : String) : String :=
           let f := normF (sub.splitOn ":")
           -- the harness lets one millisecond of virtual time pass before every arrival / outside call (first part of a compound op only)
           let sim := if idx == 0 && (["arrive", "arrivem", "mon", "dup", "call", "burst", "watch", "note"].contains (f.headD "") || (udp && f.headD "" == "empty")) then sleepFor sim 1 else sim
-          match applyOp udp limit epLimit sim f with
+          match applyOp udp limit epLimit nstart sim f with
           | some (sim1, p) =>
             (match f with
              | ["sleep", ms] => some (sleepFor sim1 (ms.toNat?.getD 0), pre ++ p)
@@ -297,7 +304,8 @@ def classify (line : String) : String :=
   match words line with
   | ["disc", _] => "racy|-|two"
   | "scn" :: tr :: q :: lim :: ep :: ops =>
-    let udp := tr == "udp"
+    let udp := isUdp tr
+    let nstart := nstartOf tr
     let limit := lim.toNat?.getD 0
     let epLimit := ep.toNat?.getD 0
     let sim0 : Sim := { s := init (q.toNat?.getD 0) udp [] }
@@ -305,7 +313,7 @@ def classify (line : String) : String :=
       settle (((op.splitOn "&").zipIdx).foldl (fun (sim : Sim) (sub, idx) =>
         let f := normF (sub.splitOn ":")
         let sim := if idx == 0 && (["arrive", "arrivem", "mon", "dup", "call", "burst", "watch", "note"].contains (f.headD "") || (udp && f.headD "" == "empty")) then sleepFor sim 1 else sim
-        match applyOp udp limit epLimit sim f with
+        match applyOp udp limit epLimit nstart sim f with
         | some (sim1, _) => (match f with
             | ["sleep", ms] => sleepFor sim1 (ms.toNat?.getD 0)
             | _ => sim1)
@@ -332,6 +340,16 @@ def history (udp : Bool) (ops : List String) (segs : List String) : Option (List
     | "mon" :: _ :: prog :: _ => (prog.splitOn "+").filterMap (fun st => if st.startsWith "w" then some (st.drop 1).toString else none)
     | "arrivem" :: _ :: prog :: _ => (prog.splitOn "+").filterMap (fun st => if st.startsWith "w" then some (st.drop 1).toString else none)
     | ["call", prog] => (prog.splitOn "+").filterMap (fun st => if st.startsWith "w" then some (st.drop 1).toString else none)
+    | _ => []
+  -- exchanges issued as non-confirmable requests (`n<k>`): they are never acknowledged, the separate response is their answer
+  let nons : List String := (ops.flatMap (·.splitOn "&")).flatMap fun sub =>
+    let ofProg (prog : String) := (prog.splitOn "+").filterMap (fun st => if st.startsWith "n" then some (st.drop 1).toString else none)
+    match normF (sub.splitOn ":") with
+    | "arrive" :: _ :: prog :: _ => ofProg prog
+    | "mon" :: _ :: prog :: _ => ofProg prog
+    | "arrivem" :: _ :: prog :: _ => ofProg prog
+    | ["call", prog] => ofProg prog
+    | ["watch", _, prog] => ofProg prog
     | _ => []
   for op in ops do
     let seg ← segs.head?
@@ -364,7 +382,7 @@ def history (udp : Bool) (ops : List String) (segs : List String) : Option (List
          ackd := k :: ackd
          if udp && writes.contains k then hist := hist ++ [.answered (← k.toNat?)]
      -- a separate response before the ACK does not complete the call (it still waits for the ACK): no claim
-     | ["sep", k] => if !early && (!udp || ackd.contains k) then hist := hist ++ [.answered (← k.toNat?)]
+     | ["sep", k] => if !early && (!udp || ackd.contains k || nons.contains k) then hist := hist ++ [.answered (← k.toNat?)]
      | ["pong"] => if !early then hist := hist ++ [.answered 0]
      | ["close"] => hist := hist ++ [.close]
      | _ => pure ()
@@ -421,7 +439,7 @@ def judgeLine (line0 : String) : String :=
     if obs == "hang" then "violates nested-stall" else      -- the harness's watchdog: the history could not be brought to an end
     match words inp with
     | "scn" :: tr :: _ :: _ :: _ :: ops =>
-      match history (tr == "udp") ops (obs.splitOn ";") with
+      match history (isUdp tr) ops (obs.splitOn ";") with
       | some (h, pending) => match Spec.Dispatch.judge h pending one with
         | none => "ok"
         | some c => s!"violates {c}"
